@@ -1,6 +1,8 @@
 """C10 - format conversion gives the same correctly quantized value by every route."""
 from . import conv, sizes, fresh, routes, pipeline
 
+from . import routes, fresh, flags, sizes, conv, dtype, carriers, funcs, ops, strings, pipeline, widths
+
 EXPLANATION = (
     "R1 the four re-scaling sites (resize restore, the normaliser's Fxp branch, equal(), like()) are scale-typed: each computes "
     "src.val * 2^(dst.n_frac - src.n_frac), a code of the destination's fraction length, with no floor/shift/cast of its own, and stores it with raw=True; "
@@ -22,3 +24,5 @@ def run(ck):
     routes.write_funnel(ck, "C01.R1")
     fresh.constructor_state(ck, "C20.R2")
     pipeline.store_pipeline(ck, "C01.R2", want_bounds=False)
+    dtype.language_rules(ck, "C12.R1", "C12.R2")      # conversion through a dtype string: the reader gives back the writer's format
+    conv.getitem_keeps_map(ck, "C17.R6")              # element views keep the destination's configuration
